@@ -274,6 +274,12 @@ def fallback_to_fast(ctx, rule='A9f'):
 def crash_shapes(ctx, functions):
     n = shapes.check_return_arity(ctx, functions)
     n += shapes.check_none_deref(ctx, functions)
+    # constant index into a list that a filter may have emptied: the analyzers and the processor as a whole (the
+    # set-up code runs before any vector is decoded)
+    wide = [f for f in ctx.prog.all_functions() if f.module.name.startswith(
+        ('adsg_core.optimization.hierarchy', 'adsg_core.optimization.graph_processor'))]
+    n += shapes.check_filtered_index(ctx, wide)
+    ctx.floor('A10e', 2, 'constant indices into filtered lists (hierarchy analyzers, graph processor)')
     return n
 
 
